@@ -8,7 +8,7 @@ claimed = {
  "C02": ("symbolic summary of Buffer.Slice: header fields and the slice expression (two-index, unclamped operands), accessor normal forms",
          "Decides that the view is the Go two-index reslice data[channels*start:channels*end] of the same storage with copied channels/bitDepth, receiver untouched; Go slice semantics then give length, capacity, aliasing, composition and panics.", "4/C02"),
  "C03": ("path summaries of Buffer.Append: branch term, header post-state, copy region, alias-hazard (stale header) analysis, SetCap term",
-         "Decides in-place vs grow branch term, the exact copy region, that the source header is not re-read after the destination header store (self-append), and the capacity trim term.", "4/C03"),
+         "Decides in-place vs grow branch term, the exact copy region, that the source header is not re-read after the destination header store (self-append), and that the final capacity is the storage capacity rounded down to whole frames and covers the new length (lemma for frame-aligned lengths stated in the evidence).", "4/C03"),
  "C04": ("path summaries of AppendSample with a relational fact domain (len/cap) proving the append in place",
          "Decides: full buffer no-op; otherwise exactly data[len] <- v, len+1, same storage, same cap.", "4/C04"),
  "C05": ("loop summaries of the nine conversions (canonical counting loops, per-iteration store, dependence of the kernel)",
@@ -17,8 +17,8 @@ claimed = {
          "Decides the state of the object handed to the pool on every path (P1), that Get returns the pool item untouched (P2), that New allocates from the stored allocator (P3), no retention (P4). sync.Pool contract trusted.", "4/C10"),
  "C11": ("effect/ownership analysis of Get/Put/New (shared state table, publication-last, freshness obligations of C10)",
          "Decides the discipline that makes every schedule safe: only the *sync.Pool is shared, ownership is transferred by the final Pool.Put, New allocates per call. Does not produce a dynamic race verdict.", "4/C11"),
- "C12": ("who-may-write-a-header rule, derivation of stored slices, element-write base rule, no-leak rule over every function of the package",
-         "Decides the structural necessary conditions of the slice-model argument (V1-V4); the induction over histories is a paper argument.", "4/C12"),
+ "C12": ("who-may-write-a-header rule, derivation of stored slices, element-write base rule, no-leak rule over every function of the package, implied-bounds rule for Append/AppendSample",
+         "Decides the structural necessary conditions of the slice-model argument (V1-V4) and that Append/AppendSample cannot panic where a plain slice would not, for arbitrary partial-frame lengths (V5); the induction over histories is a paper argument.", "4/C12"),
  "C13": ("symbolic summary of Alloc plus evaluation of getBitDepth per instantiation (13 built-in + 13 named types; thorough adds GOARCH=386)",
          "Decides make([]T, C*L, C*K) fresh and zeroed, channels, and the bit-depth table 8*sizeof(T) for every element type including named types.", "4/C13"),
  "C14": ("position terms of the channel view's reader, writer and index function compared with channels*i+c (sibling agreement)",
